@@ -79,6 +79,10 @@ CHECKS = {
    technique="generic parameter-list codec and per-type schema tables in TLA+ (ParamList.tla), round-trip law checked with TLC; cases replayed on the real PL-CDR (de)serialisers with foreign parameters spliced into the byte stream; TLC trace validation",
    text="TLC checks the round-trip law on 12 185 cases (presence sets x removed parameters x foreign standard/vendor parameters x byte order) for SpdpDiscoveredParticipantData, DiscoveredReaderData, DiscoveredWriterData, DiscoveredTopicData, ParticipantMessageData and QosPolicies; each case is built as the real struct, serialised, spliced, deserialised and compared with the schema's expected record including RTPS defaults.",
    note="presence combinations: single-field cover plus random; security parameters not covered; known finding Y1"),
+ "C13": dict(level="model_checking", engine="tlc+sched-driver", design="§4 C13",
+   technique="hand-over protocols (notify/poll/take, command queue/waker, wait-for-ack reply) as TLA+ processes in Wakeup.tla, all interleavings checked with TLC (no parked thread while its wake-up condition holds); every TLC schedule replayed on the real Reader/DataReader/DataWriter/Writer code under a cooperative two-thread scheduler with cfg-gated yield points; TLC trace validation of the recorded runs",
+   text="TLC explores every interleaving of producer (Reader::notify_cache_change / Writer command processing) and application thread (BareDataReaderStream::poll_next, mio-0.6 and mio-0.8 readiness + take, AsyncWrite::poll, AsyncWaitForAcknowledgments::poll) at the grain of the yield points placed in the code, for 1-3 samples / commands; each explored schedule is then forced onto the real code by the cooperative scheduler (src/verif/sched.rs) and the end state judged: no consumer parked with a sample available, no async write parked with room in the queue, no wait that never completes; plus random schedules.",
+   note="two threads, yield points only at the labelled places (atomic blocks between them are assumed atomic w.r.t. the other thread, which holds for the mutex-protected sections they bracket); real OS-level preemption inside a block is not explored"),
 }
 NOT_APPLICABLE = {}
 
